@@ -7,8 +7,8 @@ fn esc(s: &str) -> String {
 }
 
 const NAMES_PLAIN: [&str; 8] = ["addone", "noop", "helmert", "add2", "myop", "stack", "x", "inv"];
-const NAMES_COLON: [&str; 6] = ["m:a", "m:b", "geo:in", "addone:x", "n:c", "m:a_long"];
-const CTORS: [&str; 2] = ["u:add2", "u:oneway3"];
+const NAMES_COLON: [&str; 9] = ["m:a", "m:b", "geo:in", "addone:x", "n:c", "m:a_long", "stupid:way", "stupid:addone", "stupid:way_three"];
+const CTORS: [&str; 4] = ["u:add2", "u:oneway3", "u:needv", "u:needv"];
 const BODIES: [&str; 8] = ["addone", "addone | addone", "addone inv", "m:a | addone", "helmert x=$v(3)", "m:b v=5", "add2 | m:a inv", "noop"];
 
 fn random_def(r: &mut Rng) -> String {
@@ -104,6 +104,31 @@ pub fn generate(g: &mut Gen, thorough: bool) {
             "oracle-register",
             true,
         );
+    }
+    // a macro found in a file, used, then registered at run time under the same name: the registration wins
+    // from then on (also for a macro that refers to it), the handles made before keep their behaviour
+    for kind in ["plain", "plain-new"] {
+        for (name, body) in [("stupid:way", "addone | addone"), ("stupid:addone", "addone inv"), ("stupid:way_three", "noop"), ("stupid:add_x", "helmert x=7")] {
+            for via in [name.to_string(), format!("{name} inv"), format!("addone | {name}"), "m:via".to_string()] {
+                let calls = vec![
+                    format!("S|{}|{}", esc("m:via"), esc(&format!("{name} | noop"))),
+                    format!("O|{}", esc(&via)),
+                    format!("A|0|F|{data}"),
+                    format!("S|{}|{}", esc(name), esc(body)),
+                    format!("O|{}", esc(&via)),
+                    format!("A|1|F|{data}"),
+                    format!("A|0|F|{data}"),
+                    format!("O|{}", esc(body)),
+                    format!("A|2|F|{data}"),
+                ];
+                let line = format!("{}\t{}", kind, calls.join("\t"));
+                g.push(format!("HIST\t{line}"), &format!("hist-file-then-registered-{kind}"), true);
+                g.push(format!("S_C18\t{line}"), &format!("oracle-hist-{kind}"), true);
+                if via == name {
+                    g.push(format!("S_C18F\t{kind}\t{}\t{}", crate::wire::escape(name), crate::wire::escape(body)), "oracle-file-then-registered", true);
+                }
+            }
+        }
     }
     // registering a name again
     for kind in ["default", "new", "plain", "plain-new"] {
